@@ -406,19 +406,29 @@ def _matrix(repo, col):
     pre_param, post_param, _syn, mat = fi.params[:4]
     pre, post = ex.term(c.args[0]), ex.term(c.args[1])
     # assertions
-    asserts = [unparse(n.test) for n in walk_no_nested(fi.node) if isinstance(n, ast.Assert)]
-    shp = next((a for a in asserts if ".shape ==" in a), None)
-    ok = False
-    for n in walk_no_nested(fi.node):
-        if isinstance(n, ast.Assert) and isinstance(n.test, ast.Compare) and ".shape" in unparse(n.test.left):
-            tt = ex.term(n.test.comparators[0])
-            if tt.op == "tuple" and len(tt.args) == 2:
-                a, b = tt.args
-                ok = T.find(a, lambda x: x.op == "param" and x.name == pre_param) is not None and \
-                    T.find(b, lambda x: x.op == "param" and x.name == post_param) is not None
-    col.check(ok, "R-C20-roles", fi, "matrix connect: shape asserted to be (num_pre, num_post)", shp or "",
-              "the (num_pre, num_post) shape assertion is missing or transposed", node=fi.node)
-    col.check(any("dtype == bool" in a for a in asserts), "R-C20-roles", fi, "matrix connect: boolean dtype asserted",
+    asserts = [ex.term(n.test) for n in walk_no_nested(fi.node) if isinstance(n, ast.Assert)]
+    about_mat = lambda t_: T.find(t_, lambda x: x.op == "param" and x.name == mat) is not None
+    shape_ok = shape_seen = dtype_ok = False
+    shp = None
+    for t_ in asserts:
+        for x in t_.walk():
+            if x.op == "cmp" and x.name == "==" and len(x.args) == 2:
+                sh = next((a_ for a_ in x.args if a_.op == "attr" and a_.name == "shape" and about_mat(a_)), None)
+                tp = next((a_ for a_ in x.args if a_.op == "tuple" and len(a_.args) == 2), None)
+                if sh is not None and tp is not None:
+                    shape_seen, shp = True, x.short(80)
+                    a, b = tp.args
+                    shape_ok = T.find(a, lambda y: y.op == "param" and y.name == pre_param) is not None and \
+                        T.find(b, lambda y: y.op == "param" and y.name == post_param) is not None
+            if x.op == "cmp" and x.name in ("==", "is") and len(x.args) == 2:
+                dt = next((a_ for a_ in x.args if a_.op == "attr" and a_.name == "dtype" and about_mat(a_)), None)
+                bl = next((a_ for a_ in x.args if (a_.op in ("name", "free", "global", "builtin") and a_.name == "bool") or
+                           (a_.op == "attr" and a_.name in ("bool_", "bool"))), None)
+                dtype_ok = dtype_ok or (dt is not None and bl is not None)
+    col.add("R-C20-roles", fi, "matrix connect: shape asserted to be (num_pre, num_post)",
+            "DISCHARGED" if shape_ok else ("VIOLATED" if shape_seen or not asserts else "VIOLATED"), shp or "" if shape_ok else
+            "the (num_pre, num_post) shape assertion is missing or transposed", node=fi.node)
+    col.check(dtype_ok, "R-C20-roles", fi, "matrix connect: boolean dtype asserted",
               "dtype == bool", "the dtype assertion is missing", node=fi.node)
     # np.where(matrix) -> (rows, cols) -> (pre, post)
     w = T.find(post, lambda x: x.op == "mcall" and x.name == "where")
